@@ -107,6 +107,41 @@ def judged(ctx, engine, exe, histories, judge, valid=None, label=None, shrink=Tr
     return agreed
 
 
+def uncovered_lines(ctx, harness_src, lib_sources, histories, report=('pack.c', 'wavheader.c')):
+    """thorough tier: rebuild the harness with --coverage (no sanitizer), run the same histories and list the executable
+    lines of the modelled files that were never reached (generator quality is measured, not assumed)"""
+    d = os.path.join(ctx.tmp, 'cov')
+    os.makedirs(d, exist_ok=True)
+    objs = []
+    for src in [harness_src] + list(lib_sources):
+        o = os.path.join(d, os.path.basename(src)[:-2] + '.o')
+        rc, out, err = vlib.sh(['gcc', '-g', '-O0', '--coverage', '-D' + vlib.GUARD, '-I' + os.path.join(vlib.REPO, 'include'),
+                                '-I' + os.path.join(vlib.VERIF, 'harness'), '-c', src, '-o', o], timeout=300)
+        if rc != 0:
+            return {'error': 'coverage build failed: ' + err[-300:]}
+        objs.append(o)
+    exe = os.path.join(d, 'h_cov')
+    rc, out, err = vlib.sh(['gcc', '--coverage', '-o', exe] + objs, timeout=300)
+    if rc != 0:
+        return {'error': 'coverage link failed: ' + err[-300:]}
+    run_impl(exe, histories)
+    res = {}
+    for src in lib_sources:
+        name = os.path.basename(src)
+        if name not in report:
+            continue
+        rc, out, err = vlib.sh(['gcov', name[:-2] + '.gcda'], cwd=d, timeout=120)
+        try:
+            lines = open(os.path.join(d, name + '.gcov')).read().split('\n')
+        except OSError:
+            res[name] = 'no gcov output: ' + (out + err)[-200:]
+            continue
+        miss = [int(l.split(':')[1]) for l in lines if l.lstrip().startswith('#####')]
+        hit = sum(1 for l in lines if l.split(':')[0].strip().rstrip('*').isdigit())
+        res[name] = {'executed_lines': hit, 'never_executed': miss}
+    return res
+
+
 def corpus(pid):
     """minimised past failures: lists of op lines (without the reset prefix), run first"""
     out = []
